@@ -1245,6 +1245,7 @@ impl Engine for GroupEngine {
                     oracle: Oracle::Group(case.fam),
                     msg: format!("[{:?}] {}", v.oracle, v.msg),
                     fam: Some(case.fam),
+                    at: v.at,
                 })
                 .collect();
             violations.extend(extra);
